@@ -27,7 +27,7 @@ def run(prop, tier, seed, scratch, t0):
     if tier == "quick":
         gcfg, traces, tw, tops, rounds = (2, 1, 2), 300, 3, 6, 60
     else:
-        gcfg, traces, tw, tops, rounds = (2, 2, 2), 1500, 4, 6, 800
+        gcfg, traces, tw, tops, rounds = (2, 2, 2), 900, 4, 6, 800
     tl, dr = [], []
     # (a) sequential histories
     r = vlib.tlc(scratch, "Relay", CFG % (names("a", gcfg[0]), names("b", gcfg[1]), names("c", gcfg[2])), name="Relay_graph",
@@ -59,11 +59,33 @@ def run(prop, tier, seed, scratch, t0):
     validated = traces
     rt = None
     if d.get("_rc", 0) == 0:  # (a driver that died inside the library has no complete log: its crash is the report)
-        rt = vlib.tlc(scratch, "RelayTrace", TCFG % (names("a", nenv), names("b", nenv), names("c", 2 * tw) + ', "cz"'),
-                      name="RelayTrace", workers=1, timeout=3000)
-        rt_out = rt["out"]
-        rt["out"] = ""
-        tl.append(rt)
+        # TLC handles behaviours of at most 65535 states: the log is validated in pieces of whole traces
+        pieces, cur = [], []
+        for ln in open(trace):
+            if not ln.strip():
+                continue
+            if '"ev":"reset"' in ln.replace(" ", "") and len(cur) > 12000:
+                pieces.append(cur)
+                cur = []
+            cur.append(ln)
+        if cur:
+            pieces.append(cur)
+        for k, piece in enumerate(pieces):
+            pf = os.path.join(tdir, "piece%d.ndjson" % k)
+            with open(pf, "w") as f:
+                f.writelines(piece)
+            rt = vlib.tlc(scratch, "RelayTrace", (TCFG % (names("a", nenv), names("b", nenv), names("c", 2 * tw) + ', "cz"')).replace(
+                "trace.ndjson", "piece%d.ndjson" % k), name="RelayTrace", workers=1, timeout=3000)
+            rt_out = rt["out"]
+            rt["out"] = ""
+            if k == 0 or not rt["ok"]:
+                tl.append(rt)
+            else:
+                tl[-1]["generated"] += rt["generated"]
+                tl[-1]["distinct"] += rt["distinct"]
+            if not rt["ok"]:
+                trace = pf
+                break
     else:
         validated = 0
     if rt is not None and not rt["ok"]:
